@@ -105,8 +105,10 @@ ec_backend_t liberasurecode_backend_instance_get_by_desc(int desc)
 int liberasurecode_backend_alloc_desc(void)
 {
     for (;;) {
-        if (++next_backend_desc <= 0)
-            next_backend_desc = 1;
+        /* wrap explicitly: incrementing INT_MAX is undefined behaviour */
+        if (next_backend_desc >= INT_MAX || next_backend_desc < 0)
+            next_backend_desc = 0;
+        ++next_backend_desc;
         if (!liberasurecode_backend_instance_get_by_desc(next_backend_desc))
             return next_backend_desc;
     }
